@@ -506,6 +506,9 @@ EDITS.update({
     'media.appendMedium(tv)': lambda s: _first(s, _R.MEDIA_RULE).media.appendMedium('tv'),
     'media.deleteMedium(print)': lambda s: _first(s, _R.MEDIA_RULE).media.deleteMedium('print'),
     'media.mediaText=': lambda s: setattr(_first(s, _R.MEDIA_RULE).media, 'mediaText', 'tv, screen and (color)'),
+    'media.mediaText=all': lambda s: setattr(_first(s, _R.MEDIA_RULE).media, 'mediaText', 'all'),
+    'media.appendMedium(handheld)': lambda s: _first(s, _R.MEDIA_RULE).media.appendMedium('handheld'),
+    'media.appendMedium(all)': lambda s: _first(s, _R.MEDIA_RULE).media.appendMedium('all'),
     'import.media.mediaText=': lambda s: setattr(_imports(s)[1].media, 'mediaText', 'all'),
     'import.href=': lambda s: setattr(_imports(s)[1], 'href', 'j k.css'),
     # (the import whose target follows a comment and that has no media list of its own)
